@@ -17,7 +17,7 @@ DESCRIPTION = {
              "byte-wise, drawn splits, header-boundary splits).  Oracle: an independent receiver model that is given the frame list (not the bytes) yields "
              "the expected events for the well-formed prefix and the verdict; checked: callbacks == events, one pong per ping with equal payload, on violation "
              "exactly one close frame 1002/1007 (failByDrop off) or abort + onClose(False,1006) (on), nothing delivered after the violation, all schedules "
-             "agree.  Non-trivial = stream with a violation or >=3 frames with a control frame inside a fragmented message; header values count once per context.  "
+             "agree.  With compression negotiated each message of a sequence is sent compressed (one compressor per connection) or plain.  Non-trivial = stream with a violation or >=3 frames with a control frame inside a fragmented message; header values count once per context.  "
              "Thorough tier adds an atheris (libFuzzer) target: raw octets are walked by an independent header walker into the same reference receiver (complete frames up to the verdict, plus "
              "the bare header of a frame whose header alone is a violation), fed in one read and byte-wise, and judged by the same oracle."),
     "assumptions": [
